@@ -235,9 +235,18 @@ def run_chain(sc: dict, seed: int, nsteps: int) -> dict:
     c = copy.deepcopy(sc)
     c["seed"] = seed
     c["steps"] = [{"n": nsteps}]
+    warm = sc.get("warmup")
+    if warm:
+        # the simulation object is built and run at another temperature first, then retuned through the documented
+        # setter (annealing / hot equilibration): what it samples afterwards must be the ensemble of the NEW temperature
+        c["params"]["temperature"] = warm["temperature"]
     w = make_world(c, (), {"simgen": False, "tape_criteria": False, "probe_check_move": False, "probe_distribution": False})
     mc = w.mc
     atoms = w.atoms
+    if warm:
+        for _ in mc.srun(warm["steps"]):
+            pass
+        mc.temperature = sc["params"]["temperature"]
     if sc.get("veto"):
         vr = random.Random(derive(seed, "veto"))
         p = sc["veto"]
@@ -344,6 +353,9 @@ class C01(Campaign):
     def generate(self, rnd, tier, index):
         name, fn = ROWS[index % len(ROWS)]
         sc = fn(rnd)
+        if rnd.random() < 0.3 and sc["driver"] != "HamiltonianCanonical":
+            sc["warmup"] = {"temperature": sc["params"]["temperature"] * rnd.choice([0.5, 2.0, 3.0]), "steps": rnd.randint(20, 60)}
+            sc["proposal"] += "/retuned"
         sc["master_seed"] = rnd.randint(1, 2**31 - 1)
         sc["scale"] = 1 if tier == "quick" else 3
         return sc
